@@ -364,7 +364,7 @@ pub fn src_spec(block: usize, max_zero_blocks: usize) -> BoxedStrategy<SrcSpec> 
                 _ => tail.truncate(tail.len() / 3),
             }
             prefix.extend_from_slice(&tail);
-            SrcSpec { prefix, salt, words_differ }
+            SrcSpec { prefix, salt, words_differ, call_block: 0 }
         })
         .boxed()
 }
